@@ -137,8 +137,10 @@ func (hc *TopNCollector) Collect(ctx context.Context, aggs search.Aggregations,
 
 	searchContext := search.NewSearchContext(hc.backingSize+searcher.DocumentMatchPoolSize(), len(hc.sort))
 
-	// add fields needed by aggregations
-	hc.neededFields = append(hc.neededFields, aggs.Fields()...)
+	// add fields needed by aggregations, a field needed more than once
+	// (by the sort order and an aggregation, or by several aggregations)
+	// must be loaded only once
+	hc.neededFields = uniqueFields(append(hc.neededFields, aggs.Fields()...))
 	bucket := search.NewBucket("", aggs)
 
 	var hitNumber int
@@ -186,6 +188,26 @@ func (hc *TopNCollector) Collect(ctx context.Context, aggs search.Aggregations,
 		err:     nil,
 	}
 	return rv, nil
+}
+
+// uniqueFields returns the fields without repetitions, in order of first
+// appearance.  The document value reader visits a field once per occurrence
+// in the list it is given, so a repeated field would deliver every one of
+// its values to the DocumentMatch more than once.
+func uniqueFields(fields []string) []string {
+	if len(fields) < 2 {
+		return fields
+	}
+	seen := make(map[string]struct{}, len(fields))
+	rv := make([]string, 0, len(fields))
+	for _, field := range fields {
+		if _, ok := seen[field]; ok {
+			continue
+		}
+		seen[field] = struct{}{}
+		rv = append(rv, field)
+	}
+	return rv
 }
 
 func (hc *TopNCollector) collectSingle(ctx *search.Context, d *search.DocumentMatch, bucket *search.Bucket) error {
